@@ -8,6 +8,7 @@ specification (spec/HMSTrace.tla) decides.
 from __future__ import annotations
 
 import hashlib
+import json
 import math
 import os
 import random
@@ -93,6 +94,17 @@ class Recorder:
         # loop-head boundaries of the look schedule ("all", or [period, phase]: metaepoch count % period == phase),
         # where every reporting / query accessor is read and its answers are logged
         self.look = None
+
+    def reset_for_new_tree(self) -> None:
+        """the same configuration objects (and so the same recorder) serve a second tree: forget the first tree's log"""
+        self.events = []
+        self.batches = []
+        self.level_calls = {}
+        self.refused = 0
+        self.consults = 0
+        self.prev_ngen = {}
+        self.dumped = False
+        self.loaded_runs = []
 
     def __deepcopy__(self, memo):
         # SproutMechanism.get_seeds deep-copies candidates (individual -> problem -> objective -> recorder);
@@ -392,6 +404,20 @@ class Recorder:
             v_load = bool(_copy.deepcopy(getattr(loaded._gsc, "inner", loaded._gsc))(loaded))
             ev["verdictsame"] = int(v_live == v_load)
             ev["livestill"] = int(self.state_digest(tree, with_rng=True) == before)
+            if getattr(self, "dump_subprocess", False):
+                # ... and the snapshot restored in a FRESH interpreter (the usual reason to take one), run on to its end there
+                import subprocess
+                import sys as _sys
+                p = subprocess.run([_sys.executable, "-W", "ignore", "-m", "harness.loadrun", path], capture_output=True, text=True,
+                                   timeout=900, cwd=os.path.dirname(os.path.dirname(os.path.abspath(__file__))))
+                if p.returncode != 0:
+                    ev["err"] = "restoring / continuing the snapshot in a fresh interpreter failed: " + p.stderr.strip().splitlines()[-1][:200]
+                else:
+                    out = json.loads(p.stdout)
+                    ev["loadeq_sub"] = int(out["digest"] == proj_before)
+                    if not ev["loadeq_sub"]:
+                        ev["loadeq"] = 0
+                    self.loaded_runs.append({"status": out["status"], "events": out["events"], "dump_event": out["dump_event"]})
             # continue the loaded tree; the global generators are restored afterwards so the live run is not perturbed
             st_np, st_py = np.random.get_state(), random.getstate()
             try:
